@@ -210,9 +210,13 @@ func c05Run(e *Env, concurrent bool) {
 					rq.mid = epOwnMIDs[t.Choose(len(epOwnMIDs))]
 					e.Probe("mid.equalsEndpointOwn")
 				}
-				for _, o := range reqs {
-					if o.mid == rq.mid { // never reuse an ID for a different request
-						rq.mid = uint16(30000 + n)
+				for unique := false; !unique; { // never reuse an ID for a different request
+					unique = true
+					for _, o := range reqs {
+						if o.mid == rq.mid {
+							rq.mid += 3
+							unique = false
+						}
 					}
 				}
 				m := &WMsg{Type: rq.typ, Code: 1, MID: rq.mid, Token: rq.token,
